@@ -297,13 +297,33 @@ reg(
 reg(
     "C06",
     "translation_validation",
-    "Only the string-decoding clause: json::light::decode_escapes is evaluated from MIR on a boundary-complete family of string bodies "
-    "(every byte after a backslash; \\u escapes at every code-point boundary and with every hex-digit class at every position; surrogate pairs valid, "
-    "reversed, lone, followed by other escapes; every truncation of a surrogate pair; raw UTF-8 runs incl. ill-formed) and must never panic and decode "
-    "exactly as RFC 8259 section 7 defines. Child/sibling/parent navigation, spans and number parsing are not decided.",
-    [only_cfgs(_lazy("charmap", "rule_json_decoder"), ["cli"])],
+    "JSONNAV evaluates json::light from MIR on a family of valid RFC 8259 documents (every value kind, nesting past 128 levels, every escape "
+    "form incl. surrogate pairs, every number shape, all four white-space bytes in every gap, duplicate keys, empty containers, structural "
+    "characters inside strings, word / rank-block / SIMD-chunk crossings; thorough: 2048- and 65536-bit BP blocks): JsonIndex::build, then a full "
+    "walk from the root (value / uncons / key / value_cursor / uncons_cursor / as_str / raw_bytes / as_i64 / as_f64) with text_position, text_range, "
+    "raw_bytes, parent, the first_child/next_sibling chain and find_cursor (last duplicate) at every node, against spans from a reference scanner "
+    "and values from Python's json module. BPTAB(new) evaluates the BalancedParens constructor the index uses on L2-scale shaped sequences. "
+    "The string-decoding clause is additionally tabulated on a boundary-complete family of string bodies (decode_escapes). A family, not all documents.",
+    [
+        only_cfgs(_lazy("charmap", "rule_json_decoder"), ["cli"]),
+        only_cfgs(_lazy("jsonnav", "rule_nav"), ["cli"]),
+        only_cfgs(_lazy("bptab", "rule_bp", name="BPTAB(new)", only=("new",)), ["cli"]),
+    ],
     quick=["cli"],
-    technique="finite-domain evaluation of decoder MIR vs RFC 8259 section 7 reference decoder",
+    technique="finite-domain evaluation of index/cursor MIR over a document family vs reference reader (spans) and RFC 8259 parser (values)",
+)
+
+reg(
+    "C07",
+    "translation_validation",
+    "JSONPOS evaluates json::light from MIR on valid documents and on arbitrary byte strings over a structural-character alphabet: ib_rank1 at "
+    "every position and ib_select1 for every k (and k >= ones) against the interest bits themselves; ib_select1_from for every k and every hint "
+    "0..=words+10 against ib_select1; on documents, cursor_at_offset for every byte offset and cursor_at_position for the equivalent line/column "
+    "against 'the node with the greatest start not after that byte' from a reference scanner; text_position of every node is decided by JSONNAV. "
+    "A family of inputs, exhaustive in k / position / hint per input.",
+    [only_cfgs(_lazy("jsonnav", "rule_ibpos"), ["cli"]), only_cfgs(_lazy("jsonnav", "rule_nav", name="JSONNAV(positions)", positions_only=True), ["cli"])],
+    quick=["cli"],
+    technique="finite-domain evaluation of rank/select/offset-lookup MIR over an input family, exhaustive in k, position and hint per input",
 )
 
 
